@@ -80,7 +80,11 @@ def all_dags_rules(rep, prog):
             for c in gens[0][2]:
                 conds |= set(c[2]) if c[0] == "bool" and c[1] == "and" else {c}
             want = {call("is_dag", A=e), ("call", U + "is_consistent_extension", (e, pd), (("G", e), ("P", pd)))}
-            ok = comp[2] == e and conds == want
+            # a candidate is pdag with every undirected edge oriented one way (FILTER.candidates, ORIENTATIONS.*): skeleton and
+            # directed edges are kept by construction, so comparing the v-structures alone is the same membership test
+            vs_ = lambda x: ("call", U + "vstructures", (x,), (("A", x),))
+            want_vs = [{call("is_dag", A=e), ("cmp", "==", vs_(e), vs_(pd))}, {call("is_dag", A=e), ("cmp", "==", vs_(pd), vs_(e))}]
+            ok = comp[2] == e and (conds == want or conds in want_vs)
             why = "kept under %s" % sorted(fmt(c)[:60] for c in conds)
             cand_list = it
     if not filt:
